@@ -78,12 +78,37 @@ def main():
                 dev("durations." + form, c, got, want)
             if [g[2] for g in got] != [w[2] for w in want]:
                 dev("velocities." + form, c, got, want)
+    # ---- end to end: performance_from_part on a real part (every 25th scenario whose rows are ordered and distinct in time/pitch)
+    import partitura.score as S
+    from partitura.utils.music import performance_from_part
+    parts = 0
+    for ci, c in enumerate(cases):
+        if ci % 25:
+            continue
+        try:
+            part = S.Part("P1")
+            part.set_quarter_duration(0, 1)
+            part.add(S.TimeSignature(4, 4), 0)
+            for k, x in enumerate(c["notes"]):
+                part.add(S.Note(step="CDEFGAB"[k % 7], octave=3 + k // 7, voice=1, staff=1, id="n%d" % k), x["on"], x["on"] + x["dur"])
+            bpm_rows = [dict(b=x["b"], v=60000.0 / x["v"]) for x in c["tempo"]]
+            first = min(x["on"] for x in c["notes"])
+            # (the part's beats are quarters counted from 0: the tempo rows apply as they are)
+            pp = performance_from_part(part, bpm=np.array([[x["b"], x["v"]] for x in bpm_rows], dtype=float),
+                                       velocity=c["vel"][0]["v"] if len(c["vel"]) == 1 else np.array([[x["b"], x["v"]] for x in c["vel"]], dtype=float))
+            got = sorted([str(x["id"]), round(float(x["note_on"]) * 1000, 2), round(float(x["note_off"] - x["note_on"]) * 1000, 2), int(x["velocity"])] for x in pp.notes)
+            want = sorted(["n%d" % k, float(o["on"]), float(o["dur"]), o["vel"]] for k, o in enumerate(c["out"]))
+            parts += 1
+            if got != want:
+                dev("performance_from_part", c, got, want)
+        except Exception as ex:
+            dev("performance_from_part.raises", c, "%s: %s" % (type(ex).__name__, str(ex)[:200]), "no exception")
     out = os.path.join(common.OUT, "growth")
     os.makedirs(out, exist_ok=True)
     ev = {"growth_id": "G04", "spec": "Rubato.tla / RubatoCases.tla", "tier": tier,
           "tlc": [{"distinct_states": r.distinct, "states_generated": r.generated, "depth": r.depth, "wall_s": round(r.wall_s, 1),
                    "actions": {k: list(v) for k, v in r.coverage.items()}}],
-          "scenarios_replayed": n, "calls": calls, "deviations": deviations, "first_of_each": first, "wall_s": round(time.time() - t0, 1)}
+          "scenarios_replayed": n, "calls": calls, "parts_performed_end_to_end": parts, "deviations": deviations, "first_of_each": first, "wall_s": round(time.time() - t0, 1)}
     with open(os.path.join(out, "G04.json"), "w") as f:
         json.dump(ev, f, indent=1, default=str)
     for k, v in sorted(deviations.items()):
